@@ -313,13 +313,26 @@ package db
 
 // ---- the read path: on-demand import only for external writes (path contract) ----
 
-// getDocWithXattrs is TRUSTED (thin contract): every error-free return hands back the *Document produced by
-// unmarshalDocumentWithXattrs -- NewDocument(docid) filled in, never nil on success -- stamped with the cas of
-// the bucket document it returns alongside. It reads the bucket; `modifies *` because the unmarshalling and
-// the datastore are opaque here.
-//@ func DatabaseCollection.getDocWithXattrs
+// "Imported from what was written": whatever an on-demand import is given -- document, body, xattrs, cas -- must
+// come from ONE bucket read; mixing the body of an earlier read with the xattrs/cas of a later one would import a
+// superseded body against the newest cas (no CAS mismatch) and the latest external write would never be imported.
+
+// DatabaseCollection.unmarshalDocumentWithXattrs is TRUSTED (thin contract): it forwards to the package-level
+// unmarshalDocumentWithXattrs, which builds a fresh Document (NewDocument / unmarshalDocument), stamps it with the
+// given cas (`doc.Cas = cas` before the only nil-error return) and returns nil on every error. It writes nothing
+// that existed before the call.
+//@ func DatabaseCollection.unmarshalDocumentWithXattrs
 //@   trusted
+//@   ensures[loaded] isNilErr(err) ==> doc != nil && !old(allocated(now(doc))) && doc.Cas == cas
+//@   ensures[error]  !isNilErr(err) ==> doc == nil
+
+// getDocWithXattrs: the document is unmarshalled from the body, xattrs and cas of its one read, and that read is
+// what is returned alongside. (`modifies *`: the datastore is opaque here.)
+//@ func DatabaseCollection.getDocWithXattrs
+//@   only-contracts unmarshalDocumentWithXattrs
 //@   modifies *
+//@   propagates GetWithXattrs#1 unmarshalDocumentWithXattrs#1
+//@   before[one-read] call unmarshalDocumentWithXattrs#1 $3 == callres(GetWithXattrs, 1, 0) && $4 == callres(GetWithXattrs, 1, 1) && $5 == callres(GetWithXattrs, 1, 2)
 //@   ensures[found] isNilErr(err) ==> doc != nil && rawBucketDoc != nil && doc.Cas == rawBucketDoc.Cas
 //@ func DatabaseCollection.GetDocWithXattrs
 //@   modifies *
@@ -334,8 +347,23 @@ package db
 //@   ensures[import-only-after-check] called(OnDemandImportForGet, 1) ==> called(IsSGWrite, 2) && !callres(IsSGWrite, 2, 0)
 //@   ensures[external-imported]       isNilErr(err) && called(IsSGWrite, 2) && !callres(IsSGWrite, 2, 0) ==> called(OnDemandImportForGet, 1) && isNilErr(callres(OnDemandImportForGet, 1, 1))
 //@   ensures[import-error-surfaces]   called(OnDemandImportForGet, 1) && !isNilErr(callres(OnDemandImportForGet, 1, 1)) ==> !isNilErr(err) && doc == nil
-//@   before[checked-doc] call OnDemandImportForGet#1 $3 == callres(getDocWithXattrs, 1, 0) && $4 == callres(getDocWithXattrs, 1, 1).Body && $6 == callres(getDocWithXattrs, 1, 1).Cas
+//@   before[checked-doc] call OnDemandImportForGet#1 $3 == callres(getDocWithXattrs, 1, 0) && $4 == callres(getDocWithXattrs, 1, 1).Body && $5 == callres(getDocWithXattrs, 1, 1).Xattrs && $6 == callres(getDocWithXattrs, 1, 1).Cas
 //@   before[recheck]     call IsSGWrite#2 $0 == callres(getDocWithXattrs, 1, 0) && $2 == callres(getDocWithXattrs, 1, 1).Body
+
+// GetDocSyncData (changes-feed conflict/revocation handling, channel-history API): the same two-read shape. The
+// import is only ever requested after the reload, and it is given the document, the body, the xattrs and the cas of
+// THAT read; the re-check runs on the same triple; a failed read or unmarshal is returned, nothing is imported.
+// Shared with C13 (its callers see: no requires, nothing written, nothing promised -- the frame is an assumption,
+// as for the trusted contract it replaces: the function writes only objects it allocates).
+//@ func DatabaseCollection.GetDocSyncData
+//@   props C09 C13
+//@   only-contracts unmarshalDocumentWithXattrs
+//@   propagates GetWithXattrs#1 GetWithXattrs#2 unmarshalDocumentWithXattrs#1 unmarshalDocumentWithXattrs#2 OnDemandImportForGet#1
+//@   before[import-from-one-read] call OnDemandImportForGet#1 $3 == callres(unmarshalDocumentWithXattrs, 2, 0) && $4 == callres(GetWithXattrs, 2, 0) && $5 == callres(GetWithXattrs, 2, 1) && $6 == callres(GetWithXattrs, 2, 2)
+//@   before[reload-one-read]      call unmarshalDocumentWithXattrs#2 $4 == callres(GetWithXattrs, 2, 1) && $5 == callres(GetWithXattrs, 2, 2)
+//@   before[recheck-one-read]     call IsSGWrite#2 $0 == callres(unmarshalDocumentWithXattrs, 2, 0) && $2 == callres(GetWithXattrs, 2, 0)
+//@   before[first-check-one-read] call IsSGWrite#1 $0 == callres(unmarshalDocumentWithXattrs, 1, 0) && $2 == callres(GetWithXattrs, 1, 0)
+//@   before[first-one-read]       call unmarshalDocumentWithXattrs#1 $4 == callres(GetWithXattrs, 1, 1) && $5 == callres(GetWithXattrs, 1, 2)
 
 // ---- the feed path: a gateway write arriving on the import feed is never imported (path contract) ----
 
@@ -429,8 +457,10 @@ package db
 
 // CompactDocChannelHistory (channel-history compaction rewrite): same requirement.
 //@ func DatabaseCollection.CompactDocChannelHistory
-//@   only-contracts NewMacroExpansionSpec, xattrCasPath, XattrMouCasPath, computeMetadataOnlyUpdate
+//@   only-contracts NewMacroExpansionSpec, xattrCasPath, XattrMouCasPath, computeMetadataOnlyUpdate, unmarshalDocumentWithXattrs
 //@   modifies *
+//@   before[import-from-one-read] call OnDemandImportForGet#1 $3 == callres(unmarshalDocumentWithXattrs, 1, 0) && $4 == callres(GetWithXattrs, 1, 0) && $5 == callres(GetWithXattrs, 1, 1) && $6 == callres(GetWithXattrs, 1, 2)
+//@   before[one-read]             call unmarshalDocumentWithXattrs#1 $4 == callres(GetWithXattrs, 1, 1) && $5 == callres(GetWithXattrs, 1, 2)
 //@   before[expands-sync-cas] call UpdateXattrs#1 $6 != nil && expandsSyncCas($6.MacroExpansion, 1)
 //@   before[expands-mou-cas]  call UpdateXattrs#1 expandsMouCas($6.MacroExpansion, 0)
 
